@@ -5,7 +5,7 @@ from checks import containers as K
 KINDS = [("hash_hm", "VF_HM", "HashMap"), ("hash_hs", "VF_HS", "HashSet"), ("hash_pm", "VF_PM", "PoolMap")]
 
 def builders(ctx):
-    r = {}
+    r = {"hashstr_h": lambda c: K.build_variant2(c, "hashstr_h", ["hashstr_h.cpp"], [], [c.repo("src/Memory.cpp"), c.repo("src/String.cpp"), c.repo("src/Debug.cpp")])}
     for name, d, _ in KINDS:
         r[name] = (lambda name, d: (lambda c: K.build_variant2(c, name, ["hash_h.cpp"], [d], [c.repo("src/Memory.cpp")])))(name, d)
     return r
@@ -14,6 +14,9 @@ def configs(ctx, b, selfops=False):
     so = {"selfops": True} if selfops else {}
     cs = []
     quick = ctx.tier == "quick"
+    hs = b["hashstr_h"](ctx)
+    for cap in (1, 2, 7):
+        cs.append((hs, "HashMap<String>/HashSet<String> colliding keys cap=%d" % cap, dict(capacity=cap)))
     for name, d, title in KINDS:
         binary = b[name](ctx)
         for cap in (1, 2, 3, 0):
@@ -43,7 +46,7 @@ def run(ctx):
     K.run_bfs_configs(ctx, configs(ctx, b))
     cov = K.mc_coverage(ctx, RULE)
     return ctx.finish("model_checking", cov, ["key universe 0..K-1, K as listed per configuration",
-                                              "String keys with hash(const String&) are exercised by the String-key configuration only for lookups"],
+                                              "String keys: five keys, three of which collide under hash(const String&) (same length, first, middle and last byte), capacities 1, 2, 7"],
                       tags=["C02"])
 
 def replay(ctx, rp):
